@@ -26,7 +26,8 @@ RULE = (
     "and a JSON round trip after which the history continues on the restored network. expr is a "
     "generated EXPRESSION TREE over leaves Current(dict | str | list | Series | empty) with +, -, left / "
     "right scalar *, nested to depth 3, listing stations in an order unrelated to registration. "
-    "Oracle: a name-keyed model {name: (limit, {station: coefficient})} whose coefficients are "
+    "Constraints are added under fresh, re-used, auto-assigned (name=None) and colliding names. "
+    "Oracle: a multiset model of (name, limit, row) entries whose coefficients are "
     "evaluated in exact rational arithmetic. After EVERY step: constraints_as_df, "
     "constraint_matrix, magnitudes and constraint_index have as many rows as the model; columns "
     "are the registration order; for every row i, constraint_index[i] is a model name (each once) "
@@ -37,7 +38,8 @@ RULE = (
     "update after >= 2 adds and an expression with a scalar multiple as operand of +/-."
 )
 ASSUMPTIONS = [
-    "explicit constraint names are unique (auto-naming collisions are outside the property)",
+    "auto-assigned and colliding names are read back, never predicted; the model is a multiset, so which of two equally named constraints a removal hits is left open",
+    "a list leaf naming a station twice has no specified coefficient: its row is read back (alignment with name and limit is still judged) and a failing add must leave no trace",
     "coefficients are dyadic rationals so that the rational model is exact in floating point",
 ]
 
@@ -49,7 +51,10 @@ class State:
         self.net = ChargingNetwork()
         self.stations = []  # registration order
         self.phases = {}
-        self.model = {}  # name -> (limit, {station: Fraction})
+        # the model is a MULTISET of entries {"name", "limit", "row"} (row = coefficients in
+        # registration order): names may repeat (auto-naming gives "x_v2" twice), and which of two
+        # equally named constraints a removal hits is not specified
+        self.entries = []
         self.adds = 0
         self.mutations_after_two_adds = 0
         self.scalar_in_sum = False
@@ -60,6 +65,12 @@ class State:
         self.linear_queries = 0
         self.removed = set()
         self.reused = 0
+        self.auto_named = 0
+        self.duplicate_names = 0
+
+    @property
+    def model(self):  # names currently present (with repetitions)
+        return [e["name"] for e in self.entries]
 
 
 # ---------------------------------------------------------------- expression trees
@@ -110,6 +121,7 @@ def leaves(ids):
         dict_leaf("dict"),
         st.sampled_from(ids).map(lambda s: {"leaf": "str", "id": s}),
         sub.map(lambda o: {"leaf": "list", "ids": list(o)}),
+        sub.map(lambda o: {"leaf": "list", "ids": list(o) + [o[0]]}),  # a station listed twice
         dict_leaf("series"),
         st.sampled_from([{"leaf": "empty", "how": "list"}, {"leaf": "empty", "how": "none"}]),
     )
@@ -148,38 +160,108 @@ def same(a, b):
     return a[2].shape == b[2].shape and np.array_equal(a[2], b[2])
 
 
-def check(state):
-    net, model, stns = state.net, state.model, state.stations
-    require(list(net.station_ids) == stns, "station_order", lambda: "station_ids %r, registered %r" % (net.station_ids, stns))
-    names = list(net.constraint_index)
-    require(len(names) == len(model) and sorted(names) == sorted(model), "constraint_names", lambda: "constraint_index %r, model %r" % (names, sorted(model)))
-    require(len(net.magnitudes) == len(model), "limits_length", lambda: "%d limits for %d constraints: %r" % (len(net.magnitudes), len(model), list(net.magnitudes)))
+def has_repeated_ids(tree):
+    if "leaf" in tree:
+        return tree["leaf"] == "list" and len(set(tree["ids"])) < len(tree["ids"])
+    return has_repeated_ids(tree["a"]) or ("b" in tree and has_repeated_ids(tree["b"]))
+
+
+def row_of(co, stations):
+    return [float(co.get(s, 0)) for s in stations]
+
+
+def triple(name, limit, row):
+    return (name, float(limit), tuple(round(float(x), 12) for x in row))
+
+
+def net_triples(net):
     if net.constraint_matrix is None:
-        require(not model, "matrix_missing", "constraint_matrix is None although constraints exist")
-        return
+        return []
+    M = np.asarray(net.constraint_matrix, dtype=float).reshape(len(net.constraint_index), -1) if len(net.constraint_index) else np.zeros((0, len(net.station_ids)))
+    return [triple(net.constraint_index[i], net.magnitudes[i], M[i]) for i in range(len(net.constraint_index))]
+
+
+def check(state, entries=None, quiet=False):
+    """Alignment invariant.  With `entries` given and quiet=True returns True/False instead of
+    raising (used to find out which of several equally named constraints an operation hit)."""
+    net, stns = state.net, state.stations
+    entries = state.entries if entries is None else entries
+
+    def need(cond, clause, msg):
+        if quiet:
+            return cond
+        require(cond, clause, msg)
+        return True
+
+    if not need(list(net.station_ids) == stns, "station_order", lambda: "station_ids %r, registered %r" % (net.station_ids, stns)):
+        return False
+    names = list(net.constraint_index)
+    if not need(len(names) == len(entries) and sorted(names) == sorted(e["name"] for e in entries), "constraint_names", lambda: "constraint_index %r, model %r" % (names, sorted(e["name"] for e in entries))):
+        return False
+    if not need(len(net.magnitudes) == len(entries), "limits_length", lambda: "%d limits for %d constraints: %r" % (len(net.magnitudes), len(entries), list(net.magnitudes))):
+        return False
+    if net.constraint_matrix is None:
+        return need(not entries, "matrix_missing", "constraint_matrix is None although constraints exist")
     M = np.asarray(net.constraint_matrix, dtype=float)
-    require(M.shape == (len(model), len(stns)), "matrix_shape", lambda: "matrix shape %r for %d constraints x %d stations" % (M.shape, len(model), len(stns)))
-    if model:
+    if not need(M.shape == (len(entries), len(stns)), "matrix_shape", lambda: "matrix shape %r for %d constraints x %d stations" % (M.shape, len(entries), len(stns))):
+        return False
+    if not need(not np.isnan(M).any(), "coefficient_of_row", lambda: "NaN in the constraint matrix %r" % (M,)):
+        return False
+    got = sorted(net_triples(net))
+    want = sorted(triple(e["name"], e["limit"], e["row"]) for e in entries)
+    if got != want:
+        if quiet:
+            return False
+        # say which kind of misalignment it is
+        for i, nm in enumerate(names):
+            cands = [e for e in entries if e["name"] == nm]
+            require(any(float(net.magnitudes[i]) == e["limit"] for e in cands), "limit_of_row", lambda: "row %d (%s): limit %r, model has %r under that name" % (i, nm, net.magnitudes[i], [e["limit"] for e in cands]))
+            require(any(triple(nm, net.magnitudes[i], M[i]) == triple(e["name"], e["limit"], e["row"]) for e in cands), "coefficient_of_row", lambda: "constraint %s: matrix row %r (stations %r), the expression evaluates to %r" % (nm, list(M[i]), stns, [e["row"] for e in cands]))
+        require(False, "rows_names_limits_misaligned", lambda: "network holds %r, model %r" % (got, want))
+    if entries and not quiet:
         df = net.constraints_as_df()
         require(list(df.index) == names and list(df.columns) == stns, "df_labels", lambda: "df index %r columns %r" % (list(df.index), list(df.columns)))
         require(np.array_equal(np.asarray(df.to_numpy(), dtype=float), M, equal_nan=True), "df_content", "constraints_as_df differs from constraint_matrix")
-    for i, nm in enumerate(names):
-        lim, co = model[nm]
-        require(float(net.magnitudes[i]) == lim, "limit_of_row", lambda: "row %d (%s): limit %r, expected %r" % (i, nm, net.magnitudes[i], lim))
-        for j, s in enumerate(stns):
-            got = M[i, j]
-            want = float(co.get(s, 0))
-            require(not math.isnan(got) and abs(got - want) <= 1e-12, "coefficient_of_row", lambda: "constraint %s station %s: matrix holds %r, the expression evaluates to %r" % (nm, s, got, want))
+    return True
+
+
+def aligned_rows(state):
+    """Model row for every network position (the check has passed, so they are equal)."""
+    return [list(np.asarray(state.net.constraint_matrix, dtype=float)[i]) for i in range(len(state.net.constraint_index))]
+
+
+def settle_removal(state, name, extra=None):
+    """After the network removed ONE constraint called `name` (and possibly added `extra`), find
+    the model entry that went."""
+    cands = [k for k, e in enumerate(state.entries) if e["name"] == name]
+    for k in cands:
+        trial = [e for kk, e in enumerate(state.entries) if kk != k] + ([extra] if extra else [])
+        if check(state, trial, quiet=True):
+            state.entries = trial
+            return
+    # none fits: report through the ordinary check against the first candidate
+    state.entries = [e for kk, e in enumerate(state.entries) if kk != cands[0]] + ([extra] if extra else [])
+    check(state)
+
+
+def new_name_after_add(state, before_names):
+    after = list(state.net.constraint_index)
+    extra = list(after)
+    for nm in before_names:
+        if nm in extra:
+            extra.remove(nm)
+    require(len(after) == len(before_names) + 1 and len(extra) == 1, "constraint_names", lambda: "add_constraint turned names %r into %r" % (before_names, after))
+    return extra[0]
 
 
 def apply_op(state, op):
-    net, model = state.net, state.model
+    net = state.net
     kind = op["op"]
     with warnings.catch_warnings():
         warnings.simplefilter("ignore")
         if kind == "register":
             before = snapshot(net)
-            if model:
+            if state.entries:
                 try:
                     net.register_evse(EVSE(op["id"], max_rate=32), 208, op["phase"])
                     ok = True
@@ -200,13 +282,40 @@ def apply_op(state, op):
                 state.stations.append(op["id"])
                 state.phases[op["id"]] = op["phase"]
         elif kind == "add":
-            if not state.stations or op["name"] in model:
+            if not state.stations:
                 return
             cur, co, flag = build_expr(op["expr"])
-            net.add_constraint(cur, op["limit"], name=op["name"])
-            model[op["name"]] = (op["limit"], co)
-            if op["name"] in state.removed:
+            before_names = list(net.constraint_index)
+            adopt = has_repeated_ids(op["expr"])
+            before = snapshot(net)
+            try:
+                net.add_constraint(cur, op["limit"], name=op["name"])
+            except Exception:
+                if not adopt:
+                    raise
+                # a list naming a station twice has no specified meaning: the call may fail, but
+                # then it must not leave anything behind
+                require(same(before, snapshot(net)), "rejected_add_changed_state", lambda: "a failed add_constraint changed the network: limits %r names %r" % (list(net.magnitudes), net.constraint_index))
+                state.rejected += 1
+                return
+            got_name = new_name_after_add(state, before_names)
+            if op["name"] is None:
+                state.auto_named += 1
+            elif op["name"] in before_names:
+                require(got_name != op["name"] or before_names.count(op["name"]) == 0, "constraint_names", lambda: "a second constraint was stored under the existing name %r" % op["name"])
+            else:
+                require(got_name == op["name"], "constraint_names", lambda: "constraint added as %r is called %r" % (op["name"], got_name))
+            row = row_of(co, state.stations)
+            if adopt:
+                # read the row back: only its alignment with name and limit is judged
+                pos = [k for k, nm in enumerate(net.constraint_index) if nm == got_name and float(net.magnitudes[k]) == float(op["limit"])]
+                require(bool(pos), "limit_of_row", lambda: "no row named %r with limit %r after add" % (got_name, op["limit"]))
+                row = list(np.asarray(net.constraint_matrix, dtype=float)[pos[-1]])
+            if got_name in state.model:
+                state.duplicate_names += 1
+            if got_name in state.removed:
                 state.reused += 1
+            state.entries.append({"name": got_name, "limit": op["limit"], "row": row})
             state.adds += 1
             state.scalar_in_sum = state.scalar_in_sum or flag
         elif kind == "add_unknown":
@@ -224,7 +333,7 @@ def apply_op(state, op):
             require(same(before, snapshot(net)), "rejected_add_changed_state", lambda: "a rejected add_constraint changed the network: limits %r names %r" % (list(net.magnitudes), net.constraint_index))
             state.rejected += 1
         elif kind == "remove":
-            names = sorted(model)
+            names = sorted(set(state.model))
             if op.get("unknown") or not names:
                 before = snapshot(net)
                 try:
@@ -238,12 +347,12 @@ def apply_op(state, op):
             else:
                 nm = names[op["k"] % len(names)]
                 net.remove_constraint(nm)
-                del model[nm]
+                settle_removal(state, nm)
                 state.removed.add(nm)
                 if state.adds >= 2:
                     state.mutations_after_two_adds += 1
         elif kind == "update":
-            names = sorted(model)
+            names = sorted(set(state.model))
             if op.get("unknown") or not names:
                 before = snapshot(net)
                 cur, co, flag = build_expr(op["expr"])
@@ -256,38 +365,44 @@ def apply_op(state, op):
                 require(same(before, snapshot(net)), "rejected_update_changed_state", "a rejected update_constraint changed the network")
                 state.rejected += 1
             else:
+                if has_repeated_ids(op["expr"]):
+                    return
                 nm = names[op["k"] % len(names)]
                 new = op.get("new_name")
-                if new is not None and new in model and new != nm:
+                if new is not None and new in state.model and new != nm:
                     new = None
+                if state.model.count(nm) > 1:
+                    new = None  # keep it simple when the name is ambiguous
                 cur, co, flag = build_expr(op["expr"])
                 net.update_constraint(nm, cur, op["limit"], new_name=new)
-                del model[nm]
-                model[new or nm] = (op["limit"], co)
+                settle_removal(state, nm, {"name": new or nm, "limit": op["limit"], "row": row_of(co, state.stations)})
                 state.scalar_in_sum = state.scalar_in_sum or flag
                 if state.adds >= 2:
                     state.mutations_after_two_adds += 1
         elif kind == "query":
-            if not model:
+            if not state.entries:
                 return
+            check(state)
             stns = state.stations
             S = np.array([[op["schedule"][(i * 3 + t) % len(op["schedule"])] for t in range(op["T"])] for i in range(len(stns))], dtype=float)
-            names = sorted(model)
+            names = sorted(set(state.model))
             sub = [names[k % len(names)] for k in op["subset"]]
             sub = list(dict.fromkeys(sub)) or names[:1]
             ti = sorted({t % op["T"] for t in op["times"]}, key=lambda t: op["times"].index([x for x in op["times"] if x % op["T"] == t][0])) if op["times"] else None
             lin = bool(op.get("linear"))
             got = net.constraint_current(S, constraints=None if op.get("all") else sub, time_indices=ti, linear=lin)
-            order = [nm for nm in net.constraint_index if op.get("all") or nm in sub]
+            rows = aligned_rows(state)
+            order = [k for k, nm in enumerate(net.constraint_index) if op.get("all") or nm in sub]
             cols = ti if ti is not None else list(range(op["T"]))
+            ph = [cmath.exp(1j * math.radians(state.phases[s])) for s in stns]
             if lin:
-                exp = np.array([[sum(abs(float(model[nm][1].get(s, 0))) * S[i, t] for i, s in enumerate(stns)) for t in cols] for nm in order], dtype=complex)
+                exp = np.array([[sum(abs(rows[k][i]) * S[i, t] for i in range(len(stns))) for t in cols] for k in order], dtype=complex)
             else:
-                exp = np.array([[sum(float(model[nm][1].get(s, 0)) * S[i, t] * cmath.exp(1j * math.radians(state.phases[s])) for i, s in enumerate(stns)) for t in cols] for nm in order])
+                exp = np.array([[sum(rows[k][i] * S[i, t] * ph[i] for i in range(len(stns))) for t in cols] for k in order])
             require(np.shape(got) == exp.shape, "query_shape", lambda: "constraint_current shape %r, expected %r (constraints %r, times %r)" % (np.shape(got), exp.shape, sub, ti))
-            require(np.allclose(got, exp, rtol=1e-12, atol=1e-9), "query_rows_and_columns", lambda: "constraint_current(constraints=%r, time_indices=%r) = %r, model rows in network order %r give %r" % (sub, ti, got, order, exp))
+            require(np.allclose(got, exp, rtol=1e-12, atol=1e-9), "query_rows_and_columns", lambda: "constraint_current(constraints=%r, time_indices=%r, linear=%r) = %r, rows %r in network order give %r" % (sub, ti, lin, got, [net.constraint_index[k] for k in order], exp))
             # feasibility verdict follows the same rows/limits
-            margins = [model[nm][0] + max(1e-5, 1e-7 * model[nm][0]) - abs(sum(float(model[nm][1].get(s, 0)) * S[i, t] * cmath.exp(1j * math.radians(state.phases[s])) for i, s in enumerate(stns))) for nm in model for t in range(op["T"])]
+            margins = [float(net.magnitudes[k]) + max(1e-5, 1e-7 * float(net.magnitudes[k])) - abs(sum(rows[k][i] * S[i, t] * ph[i] for i in range(len(stns)))) for k in range(len(rows)) for t in range(op["T"])]
             if all(abs(m) > 1e-6 for m in margins):
                 want = all(m > 0 for m in margins)
                 require(bool(net.is_feasible(S)) == want, "is_feasible_uses_aligned_rows", lambda: "is_feasible says %r, the model's limits/rows say %r" % (not want, want))
@@ -322,6 +437,10 @@ def labels_of(state, log):
         labs.append("empty_operand")
     if state.reused:
         labs.append("removed_name_used_again")
+    if state.auto_named:
+        labs.append("auto_named")
+    if state.duplicate_names:
+        labs.append("duplicate_names")
     if state.json:
         labs.append("json_roundtrip")
     if state.linear_queries:
@@ -370,8 +489,13 @@ class ConstraintMachine(LoggedMachine):
         self.state.counter += 1
         name = "con-%d" % self.state.counter
         free = sorted(self.state.removed - set(self.state.model))
-        if free and data.draw(st.integers(0, 2)) == 0:
+        how = data.draw(st.sampled_from(["fresh", "fresh", "fresh", "reuse", "auto", "auto", "collide"]))
+        if how == "reuse" and free:
             name = data.draw(st.sampled_from(free))  # a name that was removed earlier is used again
+        elif how == "auto":
+            name = None  # the network picks "_const_<n>" (which may collide with an earlier one)
+        elif how == "collide" and self.state.model:
+            name = data.draw(st.sampled_from(sorted(set(self.state.model))))  # stored under "<name>_v2"
         self.do({"op": "add", "name": name, "limit": limit, "expr": data.draw(exprs(self.ids()))})
 
     @precondition(lambda self: len(self.state.model) >= 1)
